@@ -231,6 +231,41 @@ def c02(ctx):
     if rep["records"] == 0 and not ctx.replay:
         merged["inconclusive"] = "no reference stream was cross-validated"
     return merged
+def c26(ctx):
+    """Release profile always; the thorough tier adds the quick workload on a release+debug-assertions
+    build (the P-DATA writers contain debug_assert!s, so the two verdicts can differ)."""
+    legs = [ctx.harness()]
+    # second, independent decision of the writer clauses (Python, from PS3.8) on a sample of the
+    # recorded streams; a disagreement between the two oracles is a harness problem -> inconclusive
+    streams = os.path.join(ctx.work, "streams.jsonl")
+    if not ctx.replay and os.path.exists(streams):
+        import pdata_stream
+        n, agree, bad = pdata_stream.check_file(streams)
+        legs[0].setdefault("counters", {})["python_oracle_streams"] = n
+        legs[0]["counters"]["python_oracle_agreements"] = agree
+        if bad:
+            legs[0]["inconclusive"] = "Rust and Python oracles disagree on %d of %d streams, e.g. %s" % (
+                len(bad), n, json.dumps(bad[0]))
+        os.remove(streams)
+    if ctx.tier == "thorough" and not ctx.replay:
+        ctx.chk.build(profile="release-dbg")
+        binary = os.path.join(ctx.chk.TARGET, "release-dbg", "dicomverif")
+        dbg = ctx.chk.harness(ctx.prop, "quick", ctx.seed, [], out=ctx.work, timeout=3000,
+                              result="release-dbg.json", binary=binary)
+        dbg["counters"] = {"release_dbg_" + k: v for k, v in dbg.get("counters", {}).items()}
+        seen = {v["key"]: v for v in legs[0].get("violations", [])}
+        only_dbg = []
+        for v in dbg.get("violations", []):
+            if v["key"] in seen:
+                seen[v["key"]]["count"] = seen[v["key"]].get("count", 1) + v.get("count", 1)
+                seen[v["key"]]["what"] += " [also on the release+debug-assertions build]"
+            else:
+                v["what"] = "[release+debug-assertions build only] " + v["what"]
+                only_dbg.append(v)
+        dbg["violations"] = only_dbg
+        dbg["rule"] = "the quick workload repeated on a release build with debug assertions and overflow checks"
+        legs.append(dbg)
+    return ctx.chk.merge(legs)
 
 
 PROPS = {
@@ -248,4 +283,10 @@ PROPS = {
     "C24": {"run": c24, "level": "exploration"},
     "C31": {"run": simple, "level": "exploration"},
     "C34": {"run": simple, "level": "fault_enumeration"},
+    "C28": {"run": simple, "level": "exploration",
+            "assumptions": ["'supported by the registry' is modelled by an own table over the 7 transfer syntax UIDs the generator uses (cross-checked against the registry at start; a mismatch makes the run inconclusive)"]},
+    "C29": {"run": simple, "level": "exploration",
+            "assumptions": ["requestor and acceptor run in one process over loopback TCP; timeouts (8 s per socket operation, 20 s per hand-shake) make a scenario inconclusive"]},
+    "C26": {"run": c26, "level": "fault_enumeration",
+            "assumptions": ["scaled-down writers (M < 1018) are reachable only through the cfg(dicom_rs_verif) constructor; every scaled-down witness is re-executed at M = 1018 before it counts"]},
 }
